@@ -574,12 +574,6 @@ Definition listJoin (l : list bytes) : bytes :=
   | lastx :: revinit => concat_sep b_comma_sp (rev revinit) ++ b_or ++ lastx
   end.
 
-Fixpoint nodup_bytes (l : list bytes) : list bytes :=
-  match l with
-  | [] => []
-  | x :: l' => if mem_bytes x l' then nodup_bytes l' else x :: nodup_bytes l'
-  end.
-
 Definition no_match_error (c : cfg) (s : pstate) : pstate :=
   let exp := nodup_bytes (maxFailExpected s) in
   let eof := mem_bytes b_not_any exp in
